@@ -39,6 +39,15 @@ Definition winerror (e : err) : option Z :=
 Definition listed (s : pstate) : bool := match s with Gone => false | _ => true end.
 Definition zombie (s : pstate) : bool := match s with Zombie => true | _ => false end.
 
+(* pid_exists(pid) of the platform module.  _psposix.pid_exists answers True for PID 0 without
+   asking the OS ("this UNIX platform *does* have a process with id 0"); _pssunos uses it as is,
+   NetBSD adds "or pid in pids()", OpenBSD "and pid in pids()", _psaix tests /proc/<pid>/psinfo. *)
+Definition pid_exists (p : plat) (c : cond) : bool :=
+  match p with
+  | SunOS | NetBSD | FreeBSD | MacOS => c_pid0 c || listed (c_state c)
+  | OpenBSD | AIX | Windows => listed (c_state c)
+  end.
+
 (* _pswindows.is_permission_err *)
 Definition is_permission_err (e : err) : bool :=
   match pycls_of e with
@@ -65,13 +74,13 @@ Definition wrap (p : plat) (c : cond) : res :=
       end
   | SunOS =>
       match k with
-      | CLookup | CNotFound => if negb (listed s) then RNoSuch else RZombie   (* not pid_exists(pid) *)
+      | CLookup | CNotFound => if negb (pid_exists SunOS c) then RNoSuch else RZombie
       | CPerm => RDenied
-      | COSError => if c_pid0 c then (if listed s then RDenied else RRaw) else RRaw
+      | COSError => if c_pid0 c then (if listed s then RDenied else RRaw) else RRaw   (* 0 in pids() *)
       end
   | AIX =>
       match k with
-      | CLookup | CNotFound => if negb (listed s) then RNoSuch else RZombie
+      | CLookup | CNotFound => if negb (pid_exists AIX c) then RNoSuch else RZombie
       | CPerm => RDenied
       | COSError => RRaw
       end
@@ -121,7 +130,7 @@ Definition inner (p : plat) (meth site : string) (c : cond) : option res :=
   | NetBSD =>
       if g_netbsd_cmdline meth site && is_einval e then
         (* _psbsd.py:698-712 *)
-        Some (if zombie s then RZombie else if negb (listed s) then RNoSuch else RVal)
+        Some (if zombie s then RZombie else if negb (pid_exists NetBSD c) then RNoSuch else RVal)
       else if g_netbsd_exe meth site then wrap_procfs c
       else None
   | SunOS =>
@@ -134,7 +143,7 @@ Definition inner (p : plat) (meth site : string) (c : cond) : option res :=
       else None
   | AIX =>
       if g_aix_cwd meth site && is_enoent e then Some RVal
-      else if g_aix_io meth site && negb (listed s) then Some RNoSuch
+      else if g_aix_io meth site && negb (pid_exists AIX c) then Some RNoSuch
       else None
   | Windows =>
       if is_partial e && g_win_partial meth then Some RDenied                  (* retry_error_partial_copy *)
@@ -210,6 +219,10 @@ Definition eval_fields (rs : records) (fs : list (string * src)) : outcome (list
 Inductive gout := GX (r : res) (pid_ok name_ok : bool) | GNotFired | GOther.
 (* all outcomes of (platform, method, failing native call), in the order of Spec.conds *)
 Record lblock := { l_plat : plat; l_meth : string; l_site : string; l_outs : list gout }.
+(* PROC_STATUSES of a platform module: native status constant name -> psutil status text *)
+Record srow := { s_plat : plat; s_codes : list (string * string) }.
+(* outcomes of ESRCH at a native call for a PID listed with native status code sb_code, pid 7 and pid 0 *)
+Record sblock := { sb_plat : plat; sb_meth : string; sb_site : string; sb_code : string; sb_outs : list gout }.
 Record smap := { m_plat : plat; m_name : string; m_slots : list (string * Z) }.
 Record names := { nm_plat : plat; nm_all : list string; nm_dir : list string; nm_methods : list string }.
 
